@@ -2274,3 +2274,21 @@ def acyclic(src_rel, allow=()):
             raise Inconclusive("ENCODING-FAILED: no function of %s found in the MIR" % src_rel)
         return obs
     return fn
+
+
+X224_CONFIRM_NATIVE = _native("verif_replay_x224_confirm_values", "src/core/x224.rs", """
+        // every negotiation type and a spread of result / failure codes: value or error, never a panic
+        struct Duplex { input: Vec<u8>, pos: usize }
+        impl Read for Duplex { fn read(&mut self, b: &mut [u8]) -> std::io::Result<usize> { let n = std::cmp::min(b.len(), self.input.len() - self.pos); b[..n].copy_from_slice(&self.input[self.pos..self.pos + n]); self.pos += n; Ok(n) } }
+        impl Write for Duplex { fn write(&mut self, b: &[u8]) -> std::io::Result<usize> { Ok(b.len()) } fn flush(&mut self) -> std::io::Result<()> { Ok(()) } }
+        use model::link::{Link, Stream};
+        for t in 0u16..256 {
+            for code in [0u32, 1, 2, 3, 4, 5, 6, 7, 8, 9, 16, 255, 256, 0x8000_0000, 0xffff_ffff].iter() {
+                for flag in [0u8, 0xff].iter() {
+                    let c = code.to_le_bytes();
+                    let confirm = vec![3, 0, 0, 19, 14, 0xd0, 0, 0, 0, 0, 0, t as u8, *flag, 8, 0, c[0], c[1], c[2], c[3]];
+                    let mut tpkt = tpkt::Client::new(Link::new(Stream::Raw(Duplex { input: confirm, pos: 0 })));
+                    let _ = Client::<Duplex>::read_connection_confirm(&mut tpkt);
+                }
+            }
+        }""")
